@@ -350,7 +350,9 @@ def _concat(net):
     t = net.T(x)
     if not _hw4(net):
         return False
-    cands = [i for i in net.open if i != x and net.T(i)["shape"][:3] == t["shape"][:3] and net.T(i)["dtype"] == t["dtype"] and len(net.T(i)["shape"]) == 4]
+    # TFLite requires identical quantisation of all int8/int16 concatenation operands and the result
+    cands = [i for i in net.open if i != x and net.T(i)["shape"][:3] == t["shape"][:3] and net.T(i)["dtype"] == t["dtype"] and len(net.T(i)["shape"]) == 4
+             and net.T(i)["quant"] == t["quant"]]
     o = cands[-1] if cands else x
     cs = t["shape"][3] + net.T(o)["shape"][3]
     y = net.act(t["shape"][:3] + [cs], t["dtype"], q=(net.scale(x), net.zp(x)))
